@@ -189,6 +189,8 @@ pub struct WriterState {
     pub stalled: bool,
     /// total offset at which writes start failing
     pub err_at: Option<usize>,
+    /// one write call fails (TimedOut) once this many bytes have been accepted; afterwards the transport works again
+    pub err_once_at: Option<usize>,
     /// total offset from which the sink accepts nothing more: poll_write returns Ok(0) (a full fixed-size sink, a closed pipe)
     pub zero_at: Option<usize>,
     /// total offset from which the writer stops accepting bytes for the time being (Pending, waker kept): back-pressure
@@ -214,6 +216,7 @@ impl MockWriter {
             alt: false,
             stalled: false,
             err_at: None,
+            err_once_at: None,
             zero_at: None,
             stall_at: None,
             waker: None,
@@ -240,6 +243,13 @@ impl AsyncWrite for MockWriter {
             if s.written.len() >= at {
                 s.err_signalled = true;
                 return Poll::Ready(Err(io::Error::new(io::ErrorKind::BrokenPipe, "mock write error")));
+            }
+        }
+        if let Some(at) = s.err_once_at {
+            if s.written.len() >= at {
+                s.err_once_at = None;
+                s.err_signalled = true;
+                return Poll::Ready(Err(io::Error::new(io::ErrorKind::TimedOut, "mock write error (once)")));
             }
         }
         if let Some(at) = s.zero_at {
@@ -271,6 +281,9 @@ impl AsyncWrite for MockWriter {
             }
         };
         if let Some(at) = s.err_at {
+            n = n.min(at - s.written.len());
+        }
+        if let Some(at) = s.err_once_at {
             n = n.min(at - s.written.len());
         }
         if let Some(at) = s.zero_at {
